@@ -8,8 +8,9 @@ for arg in sys.argv[1:]:
     assert res['demo_clean_exit'] == 0 and res['demo_patched_exit'] != 0 and res['baseline_ok'], res
     dst = f"/verif/seeded/{pid}-{k}"
     os.makedirs(dst, exist_ok=True)
-    for f in ('patch.diff', 'demo.py'):
-        shutil.copy(os.path.join(src, f), dst)
+    for f in os.listdir(src):
+        if f == 'patch.diff' or f.endswith('.py'):
+            shutil.copy(os.path.join(src, f), dst)
     meta = json.load(open(os.path.join(src, 'meta.json')))
     meta['id'] = f"{pid}-{k}"
     meta['origin'] = "independent sub-agent given only the property text and a scratch worktree (nothing from /verif)"
